@@ -96,6 +96,7 @@ def run(ctx):
 
 
 def replay(ctx, path):
+    path = os.path.abspath(path)
     if path.endswith(".ndjson"):
         binp = ctx.go_build("dbcheck")
         seen = {}
